@@ -267,6 +267,24 @@ static void runTyped(const Cfg& c, int focus) {
 
   char key[200];
   const char* chunkName = c.chunking == 0 ? "static" : (c.chunking == 1 ? "adaptive" : "explicit");
+  // Small adaptive loops are demoted to the static path by the library (adjustChunkSizing); label
+  // them as what they execute as, so one defect of the static path has one key.
+  if (c.chunking == 1) {
+    uint64_t parSize = c.gran > 1 ? n - n % c.gran : n;
+    uint64_t N = (uint64_t)c.poolThreads;
+    uint64_t mt = std::min<uint64_t>(std::max<uint32_t>(c.maxThreads == 0xffffffffu ? 0x7fffffffu : c.maxThreads, 1), N + 1);
+    bool demoted = false;
+    if (c.minItems > 1) {
+      uint64_t maxWorkers = parSize / c.minItems;
+      if (maxWorkers < mt)
+        mt = maxWorkers;
+      demoted = mt > 0 && parSize / (mt + (c.wait ? 1 : 0)) < c.minItems;
+    } else {
+      demoted = parSize <= N + (c.wait ? 1 : 0);
+    }
+    if (demoted)
+      chunkName = "static";
+  }
   bool touches = (uint64_t)((U)L::max() - (U)end) == 0;
   if (focus == F_COVER) {
     if (r.outside) {
@@ -348,6 +366,10 @@ static void runCfg(int focus) {
   c.indexFunctor = focus == F_GRAN ? false : chance(1, 4);
   c.startMode = (int)pick(4);
   c.work = (focus == F_STATE || focus == F_MAXT) ? range(2, 16) : 2;
+  // 64-bit adaptive ranges ending at the type's maximum run into the cursor wrap that C12 reports;
+  // it is C12's input space, not this check's: keep it out of the other parfor checks
+  if (focus != F_COVER && c.typeIdx >= 6 && c.startMode == 2)
+    c.startMode = 1;
   if (focus == F_GRAN && chance(1, 2))
     c.startMode = 3;
   switch (c.typeIdx) {
